@@ -1087,19 +1087,22 @@ POST_CASES = [
     {"post": "rejected-add-then-use", "via": "map"}, {"post": "rejected-add-then-use", "via": "run"},
     {"post": "rename-output-to-duplicate", "via": "map"}, {"post": "rename-output-to-duplicate", "via": "run"},
     {"post": "scope-output-to-duplicate", "via": "run"},
+    {"post": "rename-output-to-tuple-member", "via": "map"}, {"post": "rename-output-to-tuple-member", "via": "run"},
     {"post": "storage-unknown-after-valid-entry", "via": "map"}, {"post": "storage-unknown-after-valid-entry", "via": "map-prior-folder"},
 ]
 
 
-def _post_pipeline(mapped):
+def _post_pipeline(mapped, tuple_k=False):
     from pipefunc import PipeFunc, Pipeline
     f = terms.make_function("f", ["x", "b"], sig_defaults={"b": 1})
     g = terms.make_function("g", ["y", "b"], sig_defaults={"b": 1})
-    h = terms.make_function("k", ["x"])
+    h = terms.make_function("k", ["x"], 2 if tuple_k else 1)
+    kout = ("w", "v") if tuple_k else "w"  # tuple_k: the third function has TWO outputs
     if mapped:
-        fs = [PipeFunc(f, "y", mapspec="x[i] -> y[i]"), PipeFunc(g, "z", mapspec="y[i] -> z[i]"), PipeFunc(h, "w", mapspec="x[i] -> w[i]")]
+        fs = [PipeFunc(f, "y", mapspec="x[i] -> y[i]"), PipeFunc(g, "z", mapspec="y[i] -> z[i]"),
+              PipeFunc(h, kout, mapspec="x[i] -> w[i], v[i]" if tuple_k else "x[i] -> w[i]")]
     else:
-        fs = [PipeFunc(f, "y"), PipeFunc(g, "z"), PipeFunc(h, "w")]
+        fs = [PipeFunc(f, "y"), PipeFunc(g, "z"), PipeFunc(h, kout)]
     with _quiet():
         return Pipeline(fs)
 
@@ -1108,7 +1111,7 @@ def run_post(case):  # noqa: C901, PLR0912
     from pipefunc import PipeFunc
     kind, via = case["post"], case["via"]
     mapped = via.startswith("map")
-    p = _post_pipeline(mapped)
+    p = _post_pipeline(mapped, tuple_k=kind == "rename-output-to-tuple-member")
     inputs = {"x": ["x0", "x1"]} if mapped else {"x": "x0"}
     base = boot.mkscratch("c12p-")
     folder = os.path.join(base, "run")
@@ -1136,6 +1139,8 @@ def run_post(case):  # noqa: C901, PLR0912
                         pass  # the caller ignores the rejection and goes on using the pipeline
                 elif kind == "rename-output-to-duplicate":
                     p.update_renames({"w": "z"})  # k's output now has the same name as g's
+                elif kind == "rename-output-to-tuple-member":
+                    p.update_renames({"z": "v"})  # g's output now has the name of ONE member of k's output tuple
                 elif kind == "scope-output-to-duplicate":
                     p.update_renames({"z": "s.w"})
                     p.update_scope("s", outputs={"w"})  # w -> s.w collides with g's output
@@ -1149,7 +1154,7 @@ def run_post(case):  # noqa: C901, PLR0912
                     if mapped:
                         p.map(dict(inputs), run_folder=folder, parallel=False, storage=storage, cleanup=False)
                     else:
-                        p("z", **inputs)
+                        p("z" if kind != "rename-output-to-tuple-member" else "v", **inputs)
             except Exception as e:  # noqa: BLE001
                 raised_at = "use:" + type(e).__name__
         out = []
